@@ -1,7 +1,7 @@
 #!/bin/sh
 # usage: tools/mkworktree.sh <name>  -> /tmp/mut_<name>: a built scratch git worktree of /repo HEAD (for seeded-mutation experiments)
 set -e
-d=/tmp/mut_$1
+d=/tmp/${MUTPREFIX:-mut}_$1
 git -C /repo worktree add -q --detach "$d" HEAD
 cd "$d" && ./bootstrap >/dev/null 2>&1 && ./configure -q >/dev/null 2>&1 && make -j8 >/dev/null 2>&1
 mkdir -p "$d/OUT"
